@@ -204,6 +204,13 @@ def s_canonicalize_roles(rng):
 def s_transform(rng):
     m = rng.choice(['amr', 'amr', 'amr', 'default', gen.CUSTOM_MODELS[0], gen.CUSTOM_MODELS[1]])
     g = gen.gen_graph(rng, m, mode=rng.choice(['decoded', 'decoded', 'decoded', 'hand', 'corrupt']))
+    if m == 'amr' and maybe(rng, 0.3):
+        try:
+            g = layout.interpret(Tree(gen.reified_tree(rng)), py_model(m))
+            if maybe(rng, 0.4):
+                g = penman.transform.dereify_edges(g, py_model(m))
+        except Exception:  # noqa: BLE001
+            pass
     name = rng.choice(['reify_edges', 'dereify_edges', 'reify_attributes', 'indicate_branches'])
     if name == 'dereify_edges' and maybe(rng, 0.7):
         try:
